@@ -48,7 +48,10 @@ def assemble_files(files: List[Tuple[str, str]], w: int, tag: str) -> Tuple[str,
         return 'rejected', exc, None
     except BaseException as exc:  # noqa: B902
         return 'raw', exc, None
-    reader = Reader(out)
+    try:
+        reader = Reader(out)
+    except flipjump.FlipJumpException as exc:
+        return 'unloadable', exc, None   # assembled, but the written image does not load
     image = ([(s.segment_start, s.segment_length) for s in reader.memory_segments], {k: v for k, v in reader.memory.items() if v})
     return 'ok', image, load_debugging_labels(dbg)
 
@@ -69,6 +72,8 @@ def judge(gen: macrogen.Generated, counters: Dict[str, Any]) -> List[Tuple[str, 
         return [(f'raw-exception/{type(image_m).__name__}', repr(image_m)[:200])]
     if status_m == 'rejected':
         return [('macro-program-rejected-but-inlined-assembles', str(image_m)[:300])]
+    if status_m == 'unloadable':
+        return [('macro-program-image-refused-by-reader', str(image_m)[:300])]
     out: List[Tuple[str, str]] = []
     if image_m[0] != image_i[0]:
         out.append(('segments-differ', f'macro {image_m[0]} inlined {image_i[0]}'))
